@@ -200,8 +200,16 @@ func VerifierCase(c *Case) M {
 		docs = docTransport{"/.well-known/openid-configuration": disc, "/keys": jw, "/token": tokenResp}
 		hc := &http.Client{Transport: docs}
 		var err error
-		party, err = rp.NewRelyingPartyOIDC(context.Background(), vIssuer, vClientID, "", "https://rp.example.test/cb", []string{"openid"},
+		configured := vIssuer
+		if S(cfg, "via") == "rpOIDCslash" {
+			configured = vIssuer + "/"
+		}
+		party, err = rp.NewRelyingPartyOIDC(context.Background(), configured, vClientID, "", "https://rp.example.test/cb", []string{"openid"},
 			rp.WithHTTPClient(hc), rp.WithVerifierOpts(opts[:len(opts)-1]...), rp.WithSigningAlgsFromDiscovery())
+		if err != nil && S(cfg, "via") == "rpOIDCslash" {
+			// the provider states another issuer than the configured one: no relying party, nothing is accepted
+			return M{"v": "reject", "claimsOK": true, "err": "construction:" + errClass(err)}
+		}
 		if err != nil {
 			panic("harness: " + err.Error())
 		}
